@@ -77,6 +77,9 @@ def _check(ctx, v, ex, label, outs, wallet_local="_1", extra=None):
         for what, bad in _inv_violations(ctx, ex, post):
             r, m = ex.model_for(o.pc, bad)
             v.queries += 1
+            if r == z3.unknown:
+                v.undecided("%s: solver gave no verdict on '%s'" % (label, what))
+                return False
             if r == z3.sat:
                 v.fail("%s: %s" % (label, what), dict(path=L.trace_text(o, 12), balance_after=m.eval(post.fields[ctx.field_index("Wallet", "available_balance")].bv, model_completion=True).as_long()))
         if extra:
@@ -130,7 +133,7 @@ def c19_find_slips_for_staking(ctx, v):
     unspent/staking layout: Inv holds afterwards on Ok and on Err.
     Unspent slips are given in descending amount order (the function sorts them that way)."""
     body = ctx.body(r"wallet::<impl at [^>]*>::find_slips_for_staking$")
-    for n in (1, 2, 3):
+    for n in ((1, 2) if ctx.tier == "quick" else (1, 2, 3)):
         for layout in _layouts(n):
             ex = ctx.executor(loop_bound=n + 3, inline="auto")
             # wallet keys are well-formed utxo keys, so re-parsing one (WalletSlip::to_slip) succeeds;
@@ -160,7 +163,7 @@ def c19_generate_slips(ctx, v):
     slips: Inv holds afterwards; the returned inputs are pairwise distinct wallet slips that
     were unspent; sum(inputs) - change == min(requested, sum(inputs)) in u128."""
     body = ctx.body(r"wallet::<impl at [^>]*>::generate_slips$")
-    for n in (1, 2, 3):
+    for n in ((1, 2) if ctx.tier == "quick" else (1, 2, 3)):
         layout = U * n
         ex = ctx.executor(loop_bound=n + 3, inline="auto")
         w, keys, amts, bids, pre = _wallet(ctx, ex, layout)
